@@ -16,13 +16,17 @@
    Part 2 (tie to the code): C01_tables_ok - the arity tables the models use agree with the tables
            regenerated from value.New(); C01_pinned_discipline_refuted - the pinned call-site
            discipline on the program that was probed on the real code (505 instead of 506).
-   The step text -> AST (tokenizer, parser, annotations) is covered by the correspondence run:
+   Part 3 (from the text): C01_from_text / C01_from_text_tokens / C01_text_layout_irrelevant - tokenizer model, parser
+           model, lowering and generator model composed, against the reference semantics.
+   The step text -> AST of the REAL code (tokenizer, parser, annotations) is covered by the correspondence run:
    the specification side of the run evaluates the harness's own unannotated tree, the model side the
    AST dumped from the real parser, and Run/C01Run.v counts on how many dumped ASTs the hypotheses
    of C01_generated (gen_check, side_ok) hold. *)
 From P2 Require Import Base.Prelude Sem.Num Sem.Syntax Sem.Ops Sem.Lib Sem.Ref Sem.Gen Sem.Sim
      Sem.SimExamples Sem.Pinned Sem.RelProofs Sem.OpsProofs Sem.LibProofs Sem.GenProofs Sem.PinnedProofs
      Sem.GenBuggy Sem.GenBuggyProofs Sem.Examples Generated.ValueCfg Run.C01Run.
+From P2 Require Import Lex.Token Syn.Parse Syn.Full Syn.Lower Sem.FromText.
+From P2 Require Lex.Tok Lex.TokProofs Syn.Render.
 
 (* ================= Part 1: the simulation theorems ================= *)
 
@@ -205,6 +209,105 @@ Example C01_ex_recursion_needs_annotation :
   Gen.run value_methods 50 ex_fac_T [x_] [VInt 5] = Err None.
 Proof. vm_compute. reflexivity. Qed.
 
+(* ================= Part 3: from the TEXT ================= *)
+
+(* Vocabulary: Lex/Tok.v tokenize (tokenizer model, C15), Lex/TokProofs.v wf_layout / lexeme_tokens (lexemes separated
+   by arbitrary blanks, line breaks and comments), Syn/Parse.v parse_tokens (parser model, C03), Syn/Full.v rendering
+   trees of the full grammar with fwf / fflatten / ferase (annotated AST incl. OuterIdents, Recursive, constant lets),
+   Syn/Lower.v lower (parser AST -> the AST of Part 1, value configuration), value_pcfg / value_ids argnames
+   (operator table and identifiers of value.New() with Generate's arguments),
+     text_ast tc argnames text  = lower (parse (tokenize text))
+     run_text tc known fuel argnames text args = Gen.run on text_ast (a text without AST is a Generate error).
+   C01_from_text: for EVERY well-formed layout of the lexemes of a well-formed program tree whose annotated AST lowers
+   to a, under the hypotheses of C01_generated on a: the text yields a, and the function generated FROM THE TEXT agrees
+   with the reference semantics of a (the conclusion of C01_generated).  It is the composition of C03_text_to_ast
+   with C01_generated; lower and the concrete configuration are tied to the code by the text-to-ast condition of
+   the correspondence run (Run/C01TextRun.v). *)
+Theorem C01_from_text : forall tc known fuel argnames items r e u a args1 args2,
+  P2.Lex.TokProofs.ops_ok tc -> P2.Lex.TokProofs.wf_layout tc tInvalid false items ->
+  P2.Lex.TokProofs.lexeme_tokens items = fflatten value_pcfg r ->
+  fwf value_pcfg r = true -> ferase value_pcfg (value_ids argnames) r = Some (e, u) -> lower e = Some a ->
+  gen_check (S (ast_size a)) (map Some argnames) [] a = true -> side_ok a = true ->
+  Forall2 vrel args1 args2 -> length args2 = length argnames ->
+  text_ast tc argnames (P2.Lex.Tok.layout_text items) = Some a /\
+  orel (eval known fuel (combine argnames args1) a)
+       (run_text tc known fuel argnames (P2.Lex.Tok.layout_text items) args2).
+Proof. exact from_text. Qed.
+
+(* the same with a computable hypothesis on a concrete text: the tokenizer model delivers the tokens of the tree *)
+Theorem C01_from_text_tokens : forall tc known fuel argnames text r e u a args1 args2,
+  map untok (P2.Lex.Tok.tokenize tc text) = fflatten value_pcfg r ->
+  fwf value_pcfg r = true -> ferase value_pcfg (value_ids argnames) r = Some (e, u) -> lower e = Some a ->
+  gen_check (S (ast_size a)) (map Some argnames) [] a = true -> side_ok a = true ->
+  Forall2 vrel args1 args2 -> length args2 = length argnames ->
+  text_ast tc argnames text = Some a /\
+  orel (eval known fuel (combine argnames args1) a) (run_text tc known fuel argnames text args2).
+Proof. exact from_text_tokens. Qed.
+
+(* blanks, line breaks and comments between the same lexemes do not change the generated function *)
+Theorem C01_text_layout_irrelevant : forall tc known fuel argnames items items' args,
+  P2.Lex.TokProofs.ops_ok tc ->
+  P2.Lex.TokProofs.wf_layout tc tInvalid false items -> P2.Lex.TokProofs.wf_layout tc tInvalid false items' ->
+  P2.Lex.TokProofs.lexeme_tokens items = P2.Lex.TokProofs.lexeme_tokens items' ->
+  run_text tc known fuel argnames (P2.Lex.Tok.layout_text items) args
+  = run_text tc known fuel argnames (P2.Lex.Tok.layout_text items') args.
+Proof. exact text_layout_irrelevant_run. Qed.
+
+(* the configuration of value.New() satisfies the side conditions of C03 / C15 *)
+Theorem C01_value_configuration_ok :
+  P2.Syn.Render.table_ok value_pcfg = true /\
+  forall comments letter number, P2.Lex.TokProofs.ops_ok (value_tcfg comments letter number).
+Proof. exact (conj value_table_ok value_ops_ok). Qed.
+
+(* non-vacuity: the program text (line comment, block comment, line breaks; a constant let, a closure, two method calls)
+     let k = 2; // double
+     [1, 2, x].map(e -> e * k /* scale */ + y)
+       .sum()
+   with arguments x, y.  Every hypothesis of C01_from_text_tokens is discharged by computation, and the conclusion is
+   instantiated: the function generated from the text agrees with the reference semantics of its AST; on x = 5, y = 1
+   both give 19. *)
+Definition ft_letter (c : N) : bool := (((65 <=? c) && (c <=? 90)) || ((97 <=? c) && (c <=? 122)))%N.
+Definition ft_digit (c : N) : bool := ((48 <=? c) && (c <=? 57))%N.
+Definition ft_tc : P2.Lex.Tok.tcfg := value_tcfg true ft_letter ft_digit.
+Definition ft_text : list N := [108; 101; 116; 32; 107; 32; 61; 32; 50; 59; 32; 47; 47; 32; 100; 111; 117; 98; 108; 101; 10; 91; 49; 44; 32; 50; 44; 32; 120; 93; 46; 109; 97; 112; 40; 101; 32; 45; 62; 32; 101; 32; 42; 32; 107; 32; 47; 42; 32; 115; 99; 97; 108; 101; 32; 42; 47; 32; 43; 32; 121; 41; 10; 32; 32; 46; 115; 117; 109; 40; 41]%N.
+Definition ft_args : list str := [[120]%N; [121]%N].
+Definition ft_tree : ft :=
+  FLet [107]%N (FNum [50]%N)
+    (FMethod (FMethod (FList (FA_cons (FNum [49]%N) (FA_cons (FNum [50]%N) (FA_last (FIdent [120]%N))))) [109; 97; 112]%N
+                (FA_last (FClo1 [101]%N (FBin 9 (FBin 13 (FIdent [101]%N) (FIdent [107]%N)) (FIdent [121]%N)))))
+             [115; 117; 109]%N FA_nil).
+Definition ft_ast : ast :=
+  AMethod (AMethod (AList [AConst (VInt 1); AConst (VInt 2); AIdent [120]%N]) [109; 97; 112]%N
+             [AClosure [[101]%N] (AOp [43]%N (AOp [42]%N (AIdent [101]%N) (AConst (VInt 2))) (AIdent [121]%N))
+                       [[121]%N] false []])
+          [115; 117; 109]%N [].
+
+Example C01_from_text_nonvacuous :
+  map untok (P2.Lex.Tok.tokenize ft_tc ft_text) = fflatten value_pcfg ft_tree /\
+  fwf value_pcfg ft_tree = true /\
+  (exists e u, ferase value_pcfg (value_ids ft_args) ft_tree = Some (e, u) /\ lower e = Some ft_ast) /\
+  gen_check (S (ast_size ft_ast)) (map Some ft_args) [] ft_ast = true /\ side_ok ft_ast = true.
+Proof.
+  split; [vm_compute; reflexivity|]. split; [vm_compute; reflexivity|]. split; [|split; vm_compute; reflexivity].
+  eexists. eexists. split; [vm_compute; reflexivity|vm_compute; reflexivity].
+Qed.
+
+Example C01_from_text_instance : forall fuel,
+  text_ast ft_tc ft_args ft_text = Some ft_ast /\
+  orel (eval value_methods fuel (combine ft_args [VInt 5; VInt 1]) ft_ast)
+       (run_text ft_tc value_methods fuel ft_args ft_text [VInt 5; VInt 1]).
+Proof.
+  intros fuel. destruct C01_from_text_nonvacuous as (Ht & W & (e & u & E & La) & G & S).
+  apply (C01_from_text_tokens ft_tc value_methods fuel ft_args ft_text ft_tree e u ft_ast [VInt 5; VInt 1] [VInt 5; VInt 1]
+           Ht W E La G S); [|reflexivity].
+  repeat constructor; apply fo_vrel; reflexivity.
+Qed.
+
+Example C01_from_text_value :
+  run_text ft_tc value_methods 100 ft_args ft_text [VInt 5; VInt 1] = Ok (VInt 19) /\
+  eval value_methods 100 (combine ft_args [VInt 5; VInt 1]) ft_ast = Ok (VInt 19).
+Proof. split; vm_compute; reflexivity. Qed.
+
 Print Assumptions exec_sim.
 Print Assumptions C01_from_ast.
 Print Assumptions gen_check_implies_wf.
@@ -221,3 +324,7 @@ Print Assumptions wfb_implies_wf.
 Print Assumptions C01_tables_ok.
 Print Assumptions C01_pinned_discipline_refuted.
 Print Assumptions C01_repaired_discipline_on_witness.
+Print Assumptions C01_from_text.
+Print Assumptions C01_from_text_tokens.
+Print Assumptions C01_text_layout_irrelevant.
+Print Assumptions C01_value_configuration_ok.
